@@ -1319,7 +1319,17 @@ func checkServerStoppedBeforeLockReleased(c *Ctx, rule string) {
 		return
 	}
 	n := 0
+	var scope []*ssa.Function
+	seenF := map[*ssa.Function]bool{}
 	for _, f := range append([]*ssa.Function{fn}, fn.AnonFuncs...) {
+		for _, h := range fnAndHelpers(f, 2) {
+			if !seenF[h] {
+				seenF[h] = true
+				scope = append(scope, h)
+			}
+		}
+	}
+	for _, f := range scope {
 		var shut *Call
 		for _, cl := range Calls(f) {
 			if strings.HasSuffix(cl.Name, "net/http.Server.Shutdown") {
